@@ -1242,6 +1242,75 @@ def _counter_obs(tc):
     return out
 
 
+def moves_desc(rng):
+    """A gen_ts-style description: a random topology (polytomies, some unary nodes) on 3..9
+    sample leaves over [0,L), changed at 0..3 breakpoints by moving a subtree below another,
+    older node (the vacated parent may become unary or childless)."""
+    n = rng.randrange(3, 10)
+    t = random_topology(rng, range(n), p_poly=rng.choice([0, 0.3, 0.6]))
+    parent, time = {}, {}
+    nxt = [n]
+
+    def rec(x):
+        if isinstance(x, int):
+            time[x] = 0
+            return x
+        kids = [rec(c) for c in x]
+        u = nxt[0]
+        nxt[0] += 1
+        time[u] = max(time[k] for k in kids) + 1
+        for k in kids:
+            if rng.random() < 0.2:          # a unary node on the branch
+                w = nxt[0]
+                nxt[0] += 1
+                time[w] = time[k] + 0.5
+                time[u] = max(time[u], time[w] + 0.5)
+                parent[k], parent[w] = w, u
+            else:
+                parent[k] = u
+        return u
+    root = rec(t)
+    parent[root] = -1
+    m = nxt[0]
+    L = rng.randrange(1, 5)
+    forests = []
+    cur = dict(parent)
+    for x in range(L):
+        if x > 0:
+            for _ in range(rng.randrange(1, 3)):
+                v = rng.choice([u for u in range(m) if cur[u] != -1])
+                below = set()
+                stack = [v]
+                while stack:
+                    w = stack.pop()
+                    below.add(w)
+                    stack += [c for c in range(m) if cur[c] == w]
+                cand = [q for q in range(m) if q not in below and time[q] > time[v] and q >= n
+                        and (cur[q] != -1 or q == root)]
+                if cand:
+                    cur = dict(cur)
+                    cur[v] = rng.choice(cand)
+        forests.append(dict(cur))
+    edges = []
+    for u in range(m):
+        x = 0
+        while x < L:
+            p = forests[x][u]
+            if p == -1:
+                x += 1
+                continue
+            y = x
+            while y + 1 < L and forests[y + 1][u] == p:
+                y += 1
+            edges.append([x, y + 1, p, u, ""])
+            x = y + 1
+    rng.shuffle(edges)
+    # half-integer times: scale everything by 2 to stay on integers (only order matters)
+    nodes = [[1 if u < n else 0, int(round(time[u] * 2)), -1, -1, ""] for u in range(m)]
+    return {"L": L, "scale": rng.choice([1, 0.5, 2.5]), "nodes": nodes, "edges": edges, "sites": [],
+            "mutations": [], "individuals": [], "populations": [], "migrations": []}
+
+
 class CountTopologies(Family):
     """Tree.count_topologies / TreeSequence.count_topologies on random small tree sequences
     (harness/gen_ts.py, samples are leaves) x families of disjoint sample sets, against the
@@ -1254,6 +1323,19 @@ class CountTopologies(Family):
         from harness import gen_ts
         made = 0
         want = 220 if tier == "quick" else 2500
+        # (1) single-rooted trees that change by subtree moves along the sequence
+        for _ in range(want):
+            desc = moves_desc(rng)
+            samples = [i for i, nd in enumerate(desc["nodes"]) if nd[0] & 1]
+            rng.shuffle(samples)
+            nsets = rng.randrange(1, 5)
+            sets = [[] for _ in range(nsets)]
+            for u in samples[:rng.randrange(nsets, len(samples) + 1)]:
+                k = rng.randrange(nsets)
+                if len(sets[k]) < 4:
+                    sets[k].append(u)
+            yield {"desc": desc, "sets": [sorted(x) for x in sets]}
+        # (2) the shared generator: several roots, dead branches, gaps, isolated samples
         while made < want:
             desc = gen_ts.random_desc(rng, max_nodes=rng.choice([6, 8, 10, 12]), max_L=rng.choice([1, 3, 6]),
                                       max_sites=0, max_muts=0, metadata=False, individuals=False,
